@@ -93,6 +93,12 @@ register('C20', 'Hypothesis (mesh history, data configuration, density, path) ag
          'hierarchical indicators from geometric sign patterns and single-pair entries; non-negativity; Prolongate vs geometric containment; serial and pool.',
          'single-pair bilform / linform as building blocks (C01 / C08); numerators compared relative to the magnitude of their contributions', 'DESIGN.md 3/C20')
 
+register('C09', 'Hypothesis (mesh history, element, residual family, order, path) against an independent evaluation of the Slobodeckij double integrals on the geometric union patch',
+         'Per element: time and space Sobolev indicators and weighted-L2 indicators vs definition with neighbours from the model (exact rational on straight patches 1e-8, '
+         'graded numerical reference on corner / seam / circle patches 1e-4 at orders 17, 19); serial == pool bitwise incl. two successive residuals on one estimator; '
+         'assembled == per-element sums; rotation equivariance.',
+         'vlib/slobo.py closed forms and references; patches longer than half the curve, corner patches of piece ratio > 4 and polynomial data kinked inside a seam arc are excluded and counted', 'DESIGN.md 3/C09')
+
 NOT_YET = {}
 def main():
     props = [json.loads(l)['id'] for l in open(os.path.join(V, 'properties.jsonl'))]
